@@ -115,3 +115,18 @@ def incomesFrom : Nat → List Reader → List BTx
   | n, rd :: rds => (incomeOf n rd).toList ++ incomesFrom (n + 1) rds
 
 end Acb.Qt
+
+namespace Acb.Qt
+
+/-- Σ signed shares of the rows of security `USD.FX` (what a reader of the CSV adds up) -/
+def usdFxTotal : List BTx → Rat
+  | [] => 0
+  | t :: ts => (if t.security = "USD.FX" then signedShares t else 0) + usdFxTotal ts
+
+/-- the set of accounts selected by the account option -/
+def acctPred (o : Opts) (a : Account) : Bool :=
+  match o.account with
+  | some f => f a.str
+  | none => true
+
+end Acb.Qt
